@@ -506,17 +506,17 @@ def m8_links_recorded_for_a_new_entry(S):
         (E.rx(r"TxEntry::proposal_short_id$"), lambda ex, c, a, d: OpaqueV("this_id", d)),
         (E.rx(r"TxEntry::transaction$"), lambda ex, c, a, d: ex.ctx.ref_to(OpaqueV("this_tx", "TransactionView"))),
         (E.rx(r"TransactionView::output_pts$"), lambda ex, c, a, d: ListV((OpaqueV("out0", "OutPoint"),), "Vec<OutPoint>")),
-        (E.rx(r"HashSet::<ProposalShortId(, \w+)?>::new$"), lambda ex, c, a, d: ListV((), "children")),
+        (E.rx(r"HashSet::<[\w:]*ProposalShortId(, \w+)?>::new$"), lambda ex, c, a, d: ListV((), "children")),
         (E.rx(r"Edges::get_deps_ref$"), lambda ex, c, a, d: mk_option(has_reader.t, ex.ctx.ref_to(ListV((OpaqueV("reader", "ProposalShortId"),), "deps")), d)),
         (E.rx(r"Edges::get_input_ref$"), lambda ex, c, a, d: mk_option(has_consumer.t, ex.ctx.ref_to(OpaqueV("consumer", "ProposalShortId")), d)),
-        (E.rx(r"Option::<&HashSet<.*>>::cloned$|Option::<&ProposalShortId>::cloned$"), lambda ex, c, a, d: (lambda o: EnumV(o.disc, tuple((k, tuple(deref(ex, x) for x in fs)) for k, fs in o.payloads), d))(deref(ex, a[0]))),
-        (E.rx(r"<HashSet<ProposalShortId(, \w+)?> as Extend<.*>>::extend"), set_extend),
-        (E.rx(r"HashSet::<ProposalShortId(, \w+)?>::insert$"), set_insert),
-        (E.rx(r"HashSet::<ProposalShortId(, \w+)?>::is_empty$"), lambda ex, c, a, d: BoolV(len(deref(ex, a[0]).items) == 0)),
-        (E.rx(r"<&HashSet<ProposalShortId(, \w+)?> as IntoIterator>::into_iter$"), lambda ex, c, a, d: AggV((deref(ex, a[0]), IntV(0, "usize")), "ListIterRef")),
+        (E.rx(r"Option::<&HashSet<.*>>::cloned$|Option::<&[\w:]*ProposalShortId>::cloned$"), lambda ex, c, a, d: (lambda o: EnumV(o.disc, tuple((k, tuple(deref(ex, x) for x in fs)) for k, fs in o.payloads), d))(deref(ex, a[0]))),
+        (E.rx(r"<HashSet<[\w:]*ProposalShortId(, \w+)?> as Extend<.*>>::extend"), set_extend),
+        (E.rx(r"HashSet::<[\w:]*ProposalShortId(, \w+)?>::insert$"), set_insert),
+        (E.rx(r"HashSet::<[\w:]*ProposalShortId(, \w+)?>::is_empty$"), lambda ex, c, a, d: BoolV(len(deref(ex, a[0]).items) == 0)),
+        (E.rx(r"<&HashSet<[\w:]*ProposalShortId(, \w+)?> as IntoIterator>::into_iter$"), lambda ex, c, a, d: AggV((deref(ex, a[0]), IntV(0, "usize")), "ListIterRef")),
         (E.rx(r"ProposalShortId as Clone>::clone$"), lambda ex, c, a, d: deref(ex, a[0])),
         (E.rx(r"TxLinksMap::add_parent$"), lg("add_parent", lambda ex, a, d: mk_option(True, BoolV(True), d))),
-        (E.rx(r"HashMap::<ProposalShortId, TxLinks(, \w+)?>::get_mut"), lambda ex, c, a, d: (log.append(("links_of", [nmv(ex, a[1])], list(ex.pc))), mk_option(True, ex.ctx.ref_to(AggV((OpaqueV("own_parents", "?"), ListV((), "links_children")), "TxLinks")), d))[1]),
+        (E.rx(r"HashMap::<[\w:]*ProposalShortId, [\w:]*TxLinks(, \w+)?>::get_mut"), lambda ex, c, a, d: (log.append(("links_of", [nmv(ex, a[1])], list(ex.pc))), mk_option(True, ex.ctx.ref_to(AggV((OpaqueV("own_parents", "?"), ListV((), "links_children")), "TxLinks")), d))[1]),
         (E.rx(r"PoolMap::update_descendants_index_key$"), lg("update_descendants")),
         (E.rx(r"PoolMap::update_ancestors_index_key$"), lg("update_ancestors")),
     ] + list(E.LIST_ADAPTORS)
